@@ -138,6 +138,14 @@ pub fn generate(repo: &PathBuf) -> Result<String, String> {
         return Err(format!("{rel_vault}: SplitRecord arm no longer selects the highest count in the known way"));
     }
 
+    // does the owner/signature filter run before the highest count is determined?
+    let pos_auth = [sp.find(".owner()=="), sp.find(".is_valid()")].into_iter().flatten().min();
+    let pos_sort = sp.find("sort_by_key(").ok_or(format!("{rel_vault}: SplitRecord arm has no sort_by_key"))?;
+    let filters_before_max = match pos_auth {
+        Some(a) => a < pos_sort,
+        None => true,
+    };
+
     let mut s = header(&format!("{rel_pub}, {rel_vault}"));
     s.push_str("namespace SafeNet.Gen.ClientRead\n");
     s.push_str("/-- `chunk_get` requires the record header kind `RecordKind::Chunk` -/\n");
@@ -152,6 +160,8 @@ pub fn generate(repo: &PathBuf) -> Result<String, String> {
     s.push_str(&format!("def vaultSplitChecksValid : Bool := {}\n", lean_bool(sp_valid)));
     s.push_str("/-- `SplitRecord` arm: undeserialisable records are dropped (`filter_map(..ok())`) instead of failing the whole read -/\n");
     s.push_str(&format!("def vaultSplitDropsUndeserialisable : Bool := {}\n", lean_bool(f.filter_map_ok)));
+    s.push_str("/-- `SplitRecord` arm: the owner/signature filter is applied before `sort_by_key` / `max_version` (forged versions cannot set the latest version) -/\n");
+    s.push_str(&format!("def vaultSplitFiltersBeforeMax : Bool := {}\n", lean_bool(filters_before_max)));
     s.push_str("end SafeNet.Gen.ClientRead\n");
     Ok(s)
 }
